@@ -190,7 +190,7 @@ def check(prog, run):
                             if isinstance(t, ast.Attribute) and t.attr == attr and from_heal:
                                 done = True
                 if not done:
-                    cond = ", ".join("%s=%s" % kv for kv in sorted(env.items()) if kv[0] not in (boolx.CALLS, boolx.STMTS))
+                    cond = ", ".join("%s=%s" % kv for kv in sorted(env.items()) if kv[0] not in boolx.META)
                     run.report(r, "%s:_HealSchemaVisitor.%s:path-skips-healing(%s)" % (HEAL, h, attr), m.where(st),
                                "%s can return the element without assigning .%s from the registry lookup (when %s): a type replaced "
                                "under the same name stays referenced through it, so removed members remain reachable" % (h, attr, cond or "always"))
